@@ -601,6 +601,25 @@ def r9_discrete(repo, rep):
             v = short(_append_of(apps[0])[1])
             rep.ob("R9", v in okv, "discrete_SIR: %s row is the running counter" % s, func=f, node=apps[0],
                    construct="%s.append(%s)" % (s, v), detail="" if v in okv else "%s row is %s" % (s, v))
+    # the running counters start from the first row
+    env = {}
+    for st in f.node.body:
+        if isinstance(st, ast.Assign) and isinstance(st.targets[0], ast.Name) and st.targets[0].id not in names_in(st.value):
+            env.setdefault(st.targets[0].id, st.value)
+    first = {}
+    for st in f.node.body:
+        if isinstance(st, ast.Assign) and isinstance(st.targets[0], ast.Name) and isinstance(st.value, ast.List) and len(st.value.elts) == 1:
+            first[st.targets[0].id] = st.value.elts[0]
+    for series_name, counter in (("S", "nS"), ("R", "totR")):
+        if series_name in first and counter in env:
+            a, b = linear(first[series_name], env=env), linear(env[counter], env=env)
+            ok = lin_equal(a, b)
+            rep.ob("R9", ok, "discrete_SIR: running counter %s starts from %s[0]" % (counter, series_name), func=f, node=f.node,
+                   construct="%s0 = %s ; %s[0] = %s" % (counter, lin_str(b), series_name, lin_str(a)),
+                   detail="" if ok else "%s starts at %s but the first row reports %s: every later row is off by the difference" % (counter, lin_str(b), lin_str(a)))
+        else:
+            rep.ob("R9", False, "discrete_SIR: running counter %s and first row %s found" % (counter, series_name), func=f, node=f.node,
+                   construct="counter %s / series %s" % (counter, series_name), detail="counter or first row not found")
     # S+I+R conserved: totR grows by what leaves I; nS falls by what enters I
     ok = False
     for c in walk_function(f.node):
